@@ -646,6 +646,13 @@ C18_Monotone(S, now, la, retract) ==
     /\ Range(Schedulable(S, now, la, retract, FALSE)) \subseteq Range(Schedulable(S, now, la + 1, retract, FALSE))
     /\ Range(Schedulable(S, now, la, retract, TRUE)) \subseteq Range(Schedulable(S, now, la + 1, retract, TRUE))
     /\ Range(Schedulable(S, now, la, retract, FALSE)) \subseteq Range(Schedulable(S, now, la, retract, TRUE))
+\* known deviation: the frontier estimates a SCHEDULED task's completion as planned start + runtime even when its
+\* placement was deferred (WORKER_NOT_READY / TASK_NOT_READY) and is overdue, and then offers its children early
+OverduePlacementInGraph(S, g, now) ==
+    \E i \in 1..Len(GTasks(S, g)) : LET a == GTasks(S, g)[i] IN S.ts[a].st = SCHEDULED /\ S.ts[a].plan.tm < now
+C18_ParentsDoneOffenders(S, res, la, rtg) ==
+    IF la = 0 /\ ~rtg THEN {res[i] : i \in {i \in 1..Len(res) : S.ts[res[i]].st \in {VIRTUAL, RELEASED} /\ ~ParentsOK(S, res[i])}}
+    ELSE {}
 C18_NoDuplicates(res) == \A i, j \in 1..Len(res) : i # j => res[i] # res[j]
 
 ----------------------------------------------------------------------------
